@@ -262,7 +262,9 @@ pub fn sub_args(
 
             match allocator.sexp(first_pre) {
                 SExp::Pair(_, _) => {
-                    first = sub_args(allocator, first_pre, new_args)?;
+                    // ((X) . operands) passes its operands unevaluated and does
+                    // not depend on the environment.
+                    return Ok(sexp);
                 }
                 SExp::Atom => {
                     // Atom is a reflection of first_pre.
@@ -435,6 +437,10 @@ pub fn children_optimizer(
                 if atom.as_ref().to_vec() == vec![1] {
                     return Ok(r);
                 }
+            } else {
+                // ((X) . operands): neither the head nor the operands are
+                // expressions to evaluate.
+                return Ok(r);
             }
 
             let mut optimized = Vec::new();
